@@ -85,7 +85,7 @@ mod proofs {
         In { pad: kani::any(), v0: kani::any(), x: kani::any(), y: kani::any(), z: kani::any() }
     }
 
-    //@ob fn="to_dyn! / __to_dyn_alloc! (RcRefCell arm)" at=src/reference.rs:373 clause="rrtk built with alloc and without std: to_dyn! on an Rc-backed Reference expanded in a feature-less crate does not panic and the result (and its clone) reads every write made through a clone of the source, also after the source handle is dropped"
+    //@ob fn="to_dyn! / __to_dyn_alloc! (RcRefCell arm)" at=src/reference.rs:373 prop=C17,C16 clause="rrtk built with alloc and without std: to_dyn! on an Rc-backed Reference expanded in a feature-less crate does not panic and the result (and its clone) reads every write made through a clone of the source, also after the source handle is dropped"
     #[kani::proof]
     fn c17_ext_to_dyn_rc_alloc_only_rrtk() {
         rc_case(any_in());
